@@ -630,17 +630,16 @@ econf_err econf_writeFile(econf_file *key_file, const char *save_to_dir,
     // Writing heading comments
     if (key_file->file_entry[i].comment_before_key &&
 	strlen(key_file->file_entry[i].comment_before_key) > 0) {
-      char buf[BUFSIZ];
+      char *buf = strdup(key_file->file_entry[i].comment_before_key);
       char *line;
       char *value_string = buf;
 
-      strncpy(buf,key_file->file_entry[i].comment_before_key,BUFSIZ-1);
-      buf[BUFSIZ-1] = '\0';
-      while ((line = strsep(&value_string, "\n")) != NULL) {
+      while (value_string && (line = strsep(&value_string, "\n")) != NULL) {
 	fprintf(kf, "%c%s\n",
 		key_file->comment,
 		line);
       }
+      free(buf);
     }
 
     // Writing values
@@ -655,17 +654,16 @@ econf_err econf_writeFile(econf_file *key_file, const char *save_to_dir,
     // Writing rest of comments
     if (key_file->file_entry[i].comment_after_value &&
 	strlen(key_file->file_entry[i].comment_after_value) > 0) {
-      char buf[BUFSIZ];
+      char *buf = strdup(key_file->file_entry[i].comment_after_value);
       char *line;
       char *value_string = buf;
 
-      strncpy(buf,key_file->file_entry[i].comment_after_value,BUFSIZ-1);
-      buf[BUFSIZ-1] = '\0';
-      while ((line = strsep(&value_string, "\n")) != NULL) {
+      while (value_string && (line = strsep(&value_string, "\n")) != NULL) {
 	fprintf(kf, " %c%s\n",
 		key_file->comment,
 		line);
       }
+      free(buf);
     }
     fprintf(kf, "\n");
   }
